@@ -110,7 +110,7 @@ func (m *readMon) observe(st iface.Store) {
 func (m *readMon) judge(r *Runner) *Violation {
 	m.mu.Lock()
 	defer m.mu.Unlock()
-	if m.vio != nil || m.typ == tEvent {
+	if m.vio != nil || m.typ == tEvent || r == nil {
 		return m.vio
 	}
 	r.mu.Lock()
